@@ -2361,3 +2361,9 @@ M("C15-show-line-predecrement-without-floor", "C15", F_PP,
   "    while (last > 0 && isspace(linestr[last - 1])) {\n      --last;\n    }\n    linestr = linestr.substr(0, last);\n",
   "    while (isspace(linestr[--last])) {\n      linestr = linestr.substr(0, last);\n    }\n",
   expect="R15.32|CPPPreprocessor::show_line|")
+
+# ---- R15.33 (F-C15ad: forcetype that does not parse)
+M("C15-unparsable-forcetype-used-anyway", "C15", F_IB,
+  "      cerr << \"Failure to parse forcetype \" << *ci << \"\\n\";\n      continue;\n    }\n    get_type(type, true);",
+  "      cerr << \"Failure to parse forcetype \" << *ci << \"\\n\";\n    }\n    assert(type != nullptr);\n    get_type(type, true);",
+  expect="R15.33|InterrogateBuilder::build|")
